@@ -77,6 +77,12 @@ class Siblings:
             project["cfg_glob"] = None
             project["extra"] = {}
             project["no_files"] = True
+        if not project.get("no_files") and rng.random() < 0.15:
+            # a file that is listed without any pattern (`notes.txt =` / `"notes.txt" = []`): an entry all the same
+            project["extra"] = dict(project.get("extra") or {}, **{"listed_only.txt": "nothing to see\n"})
+            cfg["file_patterns"] = list(cfg["file_patterns"])
+            cfg["file_patterns"].insert(rng.randint(0, len(cfg["file_patterns"])), ["listed_only.txt", []])
+            project["empty_entry"] = True
         # settings space incl. invalid combinations and missing optional keys
         for k in ("commit", "tag", "push"):
             r = rng.random()
